@@ -79,7 +79,8 @@ func serverHarness(rc *RunCtx) {
 		r := &rawReq{opid: strconv.Itoa(5000 + i), tag: fmt.Sprintf("r%d", i), conn: tp.Intn("req", nConns)}
 		p := &callPlan{id: i, tag: r.tag, outcome: "ok", dur: []time.Duration{0, 0, time.Millisecond, 4 * time.Millisecond}[tp.Intn("req", 4)]}
 		var fields []rawField
-		switch tp.Intn("req", 6) {
+		wireName := ""
+		switch tp.Intn("req", 7) {
 		case 0:
 			p.method = "add"
 			fields = []rawField{{1, thrift.I32, int32(i)}, {2, thrift.I32, int32(3)}}
@@ -120,6 +121,18 @@ func serverHarness(rc *RunCtx) {
 				p.ret = &simsvc.Denied{Code: 2, Reason: "r"}
 				r.wantFields = []int16{2}
 			}
+		case 6:
+			// capitalised in the IDL and declaring an exception: the reply must carry the name as the caller wrote it
+			p.method = "Lookup"
+			wireName = "lookup" // what frugal's clients put on the wire for it (first letter lowered)
+			fields = []rawField{{1, thrift.STRING, "k" + genString(tp, "req", 4)}}
+			p.outcome = []string{"ok", "ex1", "undeclared", "appex"}[tp.Intn("req", 4)]
+			p.ret = "found"
+			r.wantFields = []int16{0}
+			if p.outcome == "ex1" {
+				p.ret = &simsvc.NotFound{Key: "k"}
+				r.wantFields = []int16{1}
+			}
 		case 4:
 			p.method = "fire"
 			p.oneway = true
@@ -154,7 +167,10 @@ func serverHarness(rc *RunCtx) {
 			p.appType = []int32{0, 3, 5, 6, 42}[tp.Intn("req", 5)]
 			p.msg = "app" + strconv.Itoa(i)
 		}
-		r.method, r.outcome = p.method, p.outcome
+		if wireName == "" {
+			wireName = p.method
+		}
+		r.method, r.outcome = wireName, p.outcome
 		if r.kind == "" {
 			r.kind = "valid"
 		}
@@ -162,7 +178,7 @@ func serverHarness(rc *RunCtx) {
 		if p.oneway {
 			mt = thrift.ONEWAY
 		}
-		msg := rawMessage(env.proto, p.method, mt, fields)
+		msg := rawMessage(env.proto, wireName, mt, fields)
 		if r.kind == "valid" && !p.oneway && setting != "simple" && setting != "shared" && tp.Intn("req", 6) == 0 {
 			// well-formed arguments followed by bytes the decoder never reads: with per-message
 			// buffers they must simply be dropped with the message
@@ -175,7 +191,7 @@ func serverHarness(rc *RunCtx) {
 		}
 		if r.kind == "malformed" {
 			// cut inside the argument struct: the message begin (method name) stays intact
-			empty := rawMessage(env.proto, p.method, mt, nil)
+			empty := rawMessage(env.proto, wireName, mt, nil)
 			begin := len(empty) - 1
 			if env.proto == "json" {
 				begin = len(empty) - 3
